@@ -1,5 +1,7 @@
 (* C06 - View consistency: thread/CPU timelines show a value exactly when state allows. *)
-From Coq Require Import ZArith List Bool.
+From Coq Require Import ZArith List Bool Permutation.
+From OV Require Proofs.BayProofs.
+From OV Require Import Emu.BayDefs Proofs.BayBasics Proofs.BayMux Proofs.BayPropagate Proofs.BayEmit Proofs.BayWire Proofs.BaySem Proofs.BaySys Proofs.BayRun.
 From OV Require Import Emu.EmuCoreDefs Proofs.EmitProofs Proofs.EmuCoreProofs Proofs.EmuCoreWf.
 Import ListNotations.
 Local Open Scope Z_scope.
@@ -69,3 +71,191 @@ Example C06_ex_run :
   | Err _ => 0%nat
   end = 32%nat.
 Proof. vm_compute. reflexivity. Qed.
+
+
+(* ================================================================================================
+   The mechanics behind the emission rule: chan.c / bay.c / mux.c / track.c inside the model
+   (coq/Emu/BayDefs.v), tied in process to the real code by harness/bay_h.c.                        *)
+
+(* the wiring built for any trace with at least one thread is a well-formed two-level wiring whose
+   callback lists agree with the enabled flags *)
+Theorem C06_wiring_well_formed : forall sx, (0 < length (s_threads sx))%nat -> Shape (wire sx) /\ Cbs (wire sx).
+Proof. exact (fun sx H => conj (wire_shape sx H) (wire_cbs sx H)). Qed.
+Print Assumptions C06_wiring_well_formed.
+
+(* Single-mux refinement.  For ANY well-formed two-level wiring (Pre: shape, consistent callback
+   lists, outputs clean, dirty list = the level-0 channels the handler made dirty, select functions
+   defined, muxes with an unwritten select have exactly the selected input enabled) and any last-value
+   table: after bay_propagate, for every mux
+     - exactly the input chosen by the select function on the select value is enabled, and
+       mux->selected is that input when the select channel was written;
+     - the output was written -- hence entered the dirty list and had its emit callbacks run with
+       that value -- iff the select channel or the selected input was written (mux_written = the
+       emission rule `requested`), the value being the mux function of select and inputs (= `view`);
+     - an output that was not written is untouched; every channel is clean afterwards. *)
+Theorem C06_mux_refines_emission_rule : forall b0 last b2 last' ls m mx,
+  Pre b0 -> propagate b0 last = Ok (b2, last', ls) -> imux b0 m mx ->
+  exists oi mx2 och och2 b1,
+    BayProofs.sel_res b0 mx = Ok oi /\
+    imux b2 m mx2 /\ mstat mx2 = mstat mx /\ (forall j, en_at mx2 j <-> oi = Some j) /\
+    (In (mx_sel mx) (b_dirty b0) -> mx_selected mx2 = oi) /\
+    chan_at b0 (mx_out mx) = Some och /\ chan_at b2 (mx_out mx) = Some och2 /\ c_dirty och2 = false /\
+    (mux_written b0 mx oi -> chan_read och2 = BayProofs.mux_value b0 mx oi /\ c_last och2 = BayProofs.mux_value b0 mx oi) /\
+    (~ mux_written b0 mx oi -> och2 = och) /\
+    emit_all last (flat_map (chan_reqs b1) (b_dirty b1)) = Ok (last', ls) /\
+    (In (mx_out mx) (b_dirty b1) <-> mux_written b0 mx oi) /\
+    (mux_written b0 mx oi -> chan_reqs b1 (mx_out mx) = map (fun e => req_of e (BayProofs.mux_value b0 mx oi)) (ecbs_of b0 (mx_out mx))).
+Proof. exact mux_refines_emission_rule. Qed.
+Print Assumptions C06_mux_refines_emission_rule.
+
+(* the worklist of bay_propagate never runs out of fuel (fuel = number of channels + 1) *)
+Theorem C06_propagate_fuel : forall b0 last, Pre b0 -> propagate b0 last <> Err E_FUEL.
+Proof. exact propagate_fuel. Qed.
+Print Assumptions C06_propagate_fuel.
+
+(* System-level simulation.  `Wired sx st b`: b has the skeleton of the wiring built from sx, its
+   callback lists agree with the enabled flags, every channel is clean, the system channels hold the
+   values computed from the emulator structures st, the raw channels the model channel contents of
+   st, and each mux has exactly the input enabled that its select function picks.
+   For every event whose handler writes no raw channel twice: the mechanical step (handler writes
+   replayed on the channel model, then the three phases of bay_propagate on the real wiring) and the
+   semantic step (emission rule) both fail or both succeed; on success the structures are equal, the
+   PRV last-value tables are equal as maps, the relation holds again, and the PRV lines are the same
+   per (file,row,type) key (hence a permutation: only the interleaving of different keys, which is
+   the dirty-list order, differs). *)
+Theorem C06_bay_refines_emission_rule : forall sx, (0 < length (s_threads sx))%nat ->
+  forall st b who ev,
+  wf_keys sx -> Wired sx st b ->
+  (forall st1 dirty, core_step sx st who ev = Ok (st1, dirty) -> NoDup dirty) ->
+  match step sx st who ev, mstep sx st b who ev with
+  | Ok (st', ls), Ok (st'', b', mls) =>
+    state_equiv st'' st' /\ Wired sx st'' b' /\ Permutation mls ls /\ forall k, filter_key k mls = filter_key k ls
+  | Err _, Err _ => True
+  | _, _ => False
+  end.
+Proof. exact bay_refines_emission_rule. Qed.
+Print Assumptions C06_bay_refines_emission_rule.
+
+(* the hypothesis of the step theorem: a handler writes no raw channel twice.  True for every event but a
+   task event whose configuration lists a channel twice (ev_wf); C06_bay_side_conditions_hold shows the
+   configurations of DecodeDefs are fine *)
+Theorem C06_handlers_write_once : forall sx st who ev st1 dirty,
+  ev_wf ev -> core_step sx st who ev = Ok (st1, dirty) -> NoDup dirty.
+Proof. exact core_step_nodup. Qed.
+Print Assumptions C06_handlers_write_once.
+
+(* the state after emu_connect (wiring built, connect-time values written, first bay_propagate) is related to
+   the semantic initial state, and nothing is emitted *)
+Theorem C06_connect_state : forall sx, (0 < length (s_threads sx))%nat -> wf_keys sx -> init_ok_chans sx ->
+  exists b, wire_init sx = Ok (b, [], []) /\ Wired sx (init sx) b.
+Proof. exact wire_init_wired. Qed.
+Print Assumptions C06_connect_state.
+
+(* Whole runs: the emulator with the real bay/mux/track mechanics and the emulator with the emission rule
+   accept the same event sequences; they end in the same structures, PRV tables equal as maps, and every
+   (file,row,type) key gets the same sequence of (time, value) records (the two outputs are permutations
+   of each other: only the interleaving of different keys inside one event differs). *)
+Theorem C06_bay_run_refines : forall sx evs,
+  (0 < length (s_threads sx))%nat -> wf_keys sx -> init_ok_chans sx -> (forall x, In x evs -> ev_wf (snd x)) ->
+  exists b, wire_init sx = Ok (b, [], []) /\
+    match run_from sx (init sx) evs, mrun_from sx (init sx) b evs with
+    | Ok (st', tl), Ok (st'', b', mtl) =>
+      state_equiv st'' st' /\ Wired sx st'' b' /\ Permutation mtl tl /\ forall k, tfilter k mtl = tfilter k tl
+    | Err _, Err _ => True
+    | _, _ => False
+    end.
+Proof. exact bay_emulation_refines. Qed.
+Print Assumptions C06_bay_run_refines.
+
+Theorem C06_bay_side_conditions_hold :
+  forallb (fun en => init_ok_chansb (DecodeDefs.mk_chans en) &&
+                     (negb (existsb (Z.eqb DecodeDefs.M_NOSV) en) || cfg_okb (DecodeDefs.nosv_cfg (DecodeDefs.mk_chans en))) &&
+                     (negb (existsb (Z.eqb DecodeDefs.M_NANOS6) en) || cfg_okb (DecodeDefs.nanos6_cfg (DecodeDefs.mk_chans en))))
+          (sublists all_models) = true.
+Proof. exact dumped_bay_side_conditions. Qed.
+Print Assumptions C06_bay_side_conditions_hold.
+
+(* non-vacuity, mechanical side only: 2 threads, 2 CPUs, 2 tracked channels (a RUNNING-tracked stack and
+   an ACTIVE-tracked single channel with a CPU default).  One batch changes state + value + affinity:
+   thread 0 becomes Running on CPU 1 and pushes 7 / sets 9 in the same batch (the select is written
+   before one input and after the other).  Both thread rows and both CPU-1 rows show the values. *)
+Definition spA : chanspec := {| cs_model := 0; cs_index := 0; cs_stack := true; cs_dup := false; cs_thtrack := TRACK_RUN; cs_cputrack := TRACK_RUN;
+                                cs_type := 100; cs_flags := PRV_SKIPDUP; cs_init := None; cs_cpudef := None |}.
+Definition spB : chanspec := {| cs_model := 0; cs_index := 1; cs_stack := false; cs_dup := false; cs_thtrack := TRACK_ACT; cs_cputrack := TRACK_RUN;
+                                cs_type := 101; cs_flags := PRV_SKIPDUPNULL; cs_init := None; cs_cpudef := Some 55 |}.
+Definition sx2 : static :=
+  {| s_threads := [{| ti_tid := 7; ti_pid := 1; ti_loom := 0; ti_appid := 1; ti_rank := -1 |};
+                   {| ti_tid := 8; ti_pid := 1; ti_loom := 0; ti_appid := 1; ti_rank := -1 |}];
+     s_cpus := [{| ci_virtual := false; ci_loom := 0; ci_index := 0 |}; {| ci_virtual := false; ci_loom := 0; ci_index := 1 |}];
+     s_chans := [spA; spB]; s_lint := false |}.
+
+Definition batch1 : list wop :=
+  [WPush (ch_raw sx2 0 0) (Some 7);                 (* input of the RUN mux, written before the select *)
+   WSet (ch_th sx2 0 2) (Some 1); WSet (ch_th sx2 0 1) (Some 7);   (* state := Running, tid_active *)
+   WSet (ch_raw sx2 0 1) (Some 9);                  (* input of the ACT mux, written after the select *)
+   WSet (ch_th sx2 0 0) (Some 1);                   (* affinity: CPU 1 *)
+   WSet (ch_cpu sx2 1 3) (Some 0); WSet (ch_cpu sx2 1 0) (Some 1)]. (* CPU 1: th_running := thread 0, nrunning *)
+
+Example C06_ex_bay_batch :
+  match wire_init sx2 with
+  | Ok (b, last, _) =>
+    match apply_writes b batch1 with
+    | Ok b0 =>
+      match propagate b0 last with
+      | Ok (b2, _, ls) =>
+        (map (fun l => (l_cpu l, l_row l, l_type l, l_val l)) ls,
+         map (fun m => (mx_selected m, mx_en m)) (b_muxes b2),
+         forallb (fun ch => negb (c_dirty ch)) (b_chans b2))
+      | Err _ => ([], [], false)
+      end
+    | Err _ => ([], [], false)
+    end
+  | Err _ => ([], [], false)
+  end =
+  ([(false, 0%nat, 4, 1); (false, 0%nat, 2, 7); (false, 0%nat, 6, 2); (true, 1%nat, 3, 1);
+    (false, 0%nat, 100, 7); (false, 0%nat, 101, 9); (true, 1%nat, 100, 7); (true, 1%nat, 101, 9)],
+   [(Some 0%nat, [true]); (Some 0%nat, [true]); (Some 0%nat, [false]); (Some 0%nat, [false]);
+    (Some 0%nat, [false; false]); (Some 0%nat, [false; false]); (Some 0%nat, [true; false]); (Some 0%nat, [true; false])],
+   true).
+Proof. vm_compute. reflexivity. Qed.
+
+(* non-vacuity, both sides: an accepted run with two threads that execute, push / set model channels,
+   pause, migrate (affinity) and end; the mechanical run accepts, and every (file,row,type) key gets
+   the same sequence of (time, value) as in the semantic run; the global order differs *)
+Definition evs2 : list (Z * nat * event) :=
+  [(10, 0%nat, EvOvni (Execute 0)); (12, 0%nat, EvChan 0 PUSH (Some 3) 1); (14, 0%nat, EvChan 1 SET (Some 9) 2);
+   (20, 1%nat, EvOvni (Execute 1)); (22, 1%nat, EvChan 0 PUSH (Some 4) 1);
+   (30, 0%nat, EvOvni Pause); (32, 1%nat, EvOvni (AffSet 0)); (34, 1%nat, EvChan 1 SET (Some 2) 2);
+   (36, 1%nat, EvOvni Cool); (38, 1%nat, EvOvni Pause); (40, 0%nat, EvOvni Resume); (42, 0%nat, EvChan 0 POP (Some 3) 1);
+   (50, 0%nat, EvOvni End_)].
+
+Fixpoint lines_beq (a b : list (Z * line)) : bool :=
+  match a, b with
+  | [], [] => true
+  | (t1, l1) :: a', (t2, l2) :: b' =>
+    (t1 =? t2) && key_eqb (line_key l1) (line_key l2) && (l_val l1 =? l_val l2) && lines_beq a' b'
+  | _, _ => false
+  end.
+Definition per_key_eq (a b : list (Z * line)) : bool :=
+  forallb (fun x => let k := line_key (snd x) in
+                    lines_beq (filter (fun y => key_eqb (line_key (snd y)) k) a) (filter (fun y => key_eqb (line_key (snd y)) k) b)) (a ++ b).
+
+Example C06_ex_bay_run :
+  match wire_init sx2 with
+  | Ok (b, _, _) =>
+    match mrun_from sx2 (init sx2) b evs2, run_from sx2 (init sx2) evs2 with
+    | Ok (_, _, mtl), Ok (_, tl) => (length mtl, length tl, per_key_eq mtl tl, lines_beq mtl tl)
+    | _, _ => (0%nat, 0%nat, false, false)
+    end
+  | Err _ => (0%nat, 0%nat, false, false)
+  end = (78%nat, 78%nat, true, false).
+Proof. vm_compute. reflexivity. Qed.
+
+(* the hypotheses of C06_bay_run_refines are satisfiable: they hold for the example above *)
+Example C06_ex_hypotheses :
+  (0 < length (s_threads sx2))%nat /\ wf_keys sx2 /\ init_ok_chans sx2 /\ (forall x, In x evs2 -> ev_wf (snd x)).
+Proof.
+  split; [cbn; repeat constructor|]. split; [apply wf_keys_of_types; apply types_okb_ok; vm_compute; reflexivity|].
+  split; [apply init_ok_chansb_ok; vm_compute; reflexivity|].
+  intros x Hx. cbn in Hx. repeat (destruct Hx as [<-|Hx]; [exact I|]). destruct Hx.
+Qed.
